@@ -113,6 +113,7 @@ type World struct {
 	lastSM     *swap.SwapStateMachine
 	opsPending int
 	injN       int
+	Watches    []*watchReg
 }
 
 func (w *World) Observe(o *Obs) {
